@@ -23,7 +23,8 @@ RULE = ("histories over the 85 concrete kit classes: every ordered pair of concr
         "created part subclasses defined after their parents were primed. Probe set of B = an instance of B, of each of its concrete "
         "ancestors, of two siblings and one random record (the inputs a leaked ancestor pattern would mis-accept). "
         "Non-trivial = the priming history validated at least one record before the query and the query's baseline has both an accepted "
-        "and a rejected probe; distinct = distinct (history, query class).")
+        "and a rejected probe; distinct = distinct (history, query class)."
+        " Second session: every entity is asked a second time (the two answers must agree - judged on its own, in histories and baselines alike); a third-site probe; primer entities of every other probe stay alive while the query runs; inheritance-related pairs are part of the same-text histories.")
 ASSUMPTIONS = ["the query's answer is (is_valid, overhang_start, overhang_end, target) or the exception class, per probe record"]
 FLOORS = {"c06_histories": 1500, "c06_baseline_crosschecked": 8, "c06_related_pairs": 100, "c06_topology_orders": 1000, "c06_shared_objects": 200}
 MUST_REACH = []
